@@ -260,6 +260,7 @@ func runC08Full(r *Report, p *Program) {
 	c08R4(h)
 	c08R5(h)
 	c08R6(h)
+	c08R7(h)
 }
 
 func c08R2(h H) {
@@ -977,6 +978,7 @@ func mergeEdges(a, b map[edge]bool) map[edge]bool {
 func runC07(r *Report, p *Program) {
 	h := H{r, p}
 	defer c07R6(h)
+	defer parserHasNoMemory(h, "R7") // a reload parses again in the same process
 	r.Rule("R1", "start-new-before-stop-old (E10 lifecycle traces): in every evaluated Restart — each restart callback, the start of the new instance, the stop of the old servers and each old shutdown callback failing in turn — the old servers are stopped only after the new instance started successfully, never when starting it failed, and every Restart that reports success has stopped them", 2)
 	rs := h.fn("R1", "", "(*Instance).Restart")
 	if rs != nil {
